@@ -65,3 +65,6 @@ LEVEL_NOTE = ("Trusted: Lean kernel; hand-written model + correspondence; Spec/A
               "over the writer model (write_text, flags of write_char) and the decode_text model of C02 (C02_text_protocol, C02_text_total, C02_analysis_facts); "
               "it is additionally observed through the real cif_parse on every case and through cif_write + cif_parse for text fields.")
 TECHNIQUE = "Lean 4 proof (loop invariants, case analysis) about an executable model + exhaustive differential execution incl. read-back through the real parser"
+
+# ---- independent review rA (notes/review/rA-review.md): instances applying the new theorems to concrete strings ----
+LEAN_MODULES += ["CifModel.Props.ReviewRC18"]
